@@ -612,3 +612,41 @@ Proof.
   - injection Hp as <-. cbn in Hqph. rewrite Hph in Hqph. discriminate.
   - right. reflexivity.
 Qed.
+
+(* ---------- C02 over histories ----------
+   A history: the controller reconciles again and again; before each reconcile the rest of the world (workload controller,
+   BatchRelease controller, user) may have changed what it observes.  The persisted status is the only thing carried from one
+   reconcile to the next (a crash loses nothing else); a reconcile that panics or writes no status leaves it as it was. *)
+Record obs_env := { oe_w : wl; oe_br : option brel }.
+Definition next_status (sp : ro_spec) (st : ro_status) (e : obs_env) : ro_status :=
+  match reconcile sp st (oe_w e) (oe_br e) with
+  | ROut m => match o_status m with Some s' => s' | None => st end
+  | RPanic => st
+  end.
+Fixpoint trace (sp : ro_spec) (st : ro_status) (es : list obs_env) : list (ro_status * obs_env * ro_status) :=
+  match es with
+  | [] => []
+  | e :: es' => let st' := next_status sp st e in (st, e, st') :: trace sp st' es'
+  end.
+
+(* every step of every history: while rolling without a pending user request, the cursor stays or moves along the gated path *)
+Theorem every_history_is_gated sp : forall es st0 st e st',
+  In (st, e, st') (trace sp st0 es) ->
+  forall u x y, rp_phase st = RpProgressing -> rs_deleting sp = false ->
+  rp_prog st = Some (PrInRolling, x, y) -> rp_sub st = Some u ->
+  (su_next u = next_index (nsteps sp) (su_idx u) \/ su_next u <= 0) ->
+  (sempty (su_hash u) = true \/ su_hash u = rs_hash sp) ->
+  wl_canary (oe_w e) = su_canary_rev u ->
+  forall v, rp_sub st' = Some v ->
+  (su_idx v = su_idx u /\ su_state v = su_state u) \/
+  gated_sub sp (observed_sub (oe_w e) u) (oe_w e) (synced_br (observed_sub (oe_w e) u) (oe_br e)) v = true.
+Proof.
+  induction es as [|e0 es IH]; intros st0 st e st' Hin; [destruct Hin|].
+  cbn [trace] in Hin. destruct Hin as [E|Hin]; [|eapply IH; exact Hin].
+  injection E as <- <- <-. intros u x y Hph Hdel Hprog Hu Hnext Hhash Hrev v Hv.
+  unfold next_status in Hv. destruct (reconcile sp st0 (oe_w e0) (oe_br e0)) as [|m] eqn:Hr.
+  { left. rewrite Hu in Hv. injection Hv as <-. auto. }
+  destruct (o_status m) as [s'|] eqn:Hs.
+  - eapply steps_are_gated; eauto.
+  - left. rewrite Hu in Hv. injection Hv as <-. auto.
+Qed.
